@@ -5,7 +5,10 @@ cd /verif/seeded || exit 2
 for D in $1; do
   [ -f "$D/patch.diff" ] || continue
   PID=$(python3 -c "import json;print(json.load(open('$D/meta.json'))['property'])")
-  RES=$(/verif/lib/mutest.sh /verif/seeded/$D/patch.diff $PID 2>&1 | grep -E "^== |APPLY" | cut -c1-500)
+  PATCH=/verif/seeded/$D/patch.diff
+  # a change made against an older tree that no longer applies has been re-made against the current one
+  [ -f /verif/seeded/$D/patch_ported.diff ] && PATCH=/verif/seeded/$D/patch_ported.diff
+  RES=$(/verif/lib/mutest.sh $PATCH $PID 2>&1 | grep -E "^== |APPLY" | cut -c1-500)
   echo "$D :: $RES"
   python3 - "$D" "$RES" <<'PY'
 import json,sys,re
